@@ -162,12 +162,13 @@ class SocketWrapper:
             except ValueError:
                 # residual bytes at beginning of stream
                 break
+            chunk = instream.read(chunk_length)
+            crlf = instream.read(2)  # CRLF terminating this chunk
+            if len(chunk) != chunk_length or len(crlf) != 2:
+                # premature end of chunk bytes or of the chunk terminator
+                partial = length_bytes + chunk + crlf
+                break
             if chunk_length != 0:
-                chunk = instream.read(chunk_length)
-                if len(chunk) != chunk_length:
-                    # premature end of chunk bytes
-                    partial = length_bytes + chunk
-                    break
                 try:
                     if self._encoding & ENCODE_GZIP:
                         chunk = decompress(chunk, wbits=MAX_WBITS | 16)
@@ -180,7 +181,6 @@ class SocketWrapper:
                     # parser will discard data
                 chunks += chunk
 
-            instream.readline()
             if chunk_length == 0:
                 # final chunk
                 break
